@@ -1,12 +1,96 @@
 import Driver.Util
-/-! Driver section for C03 (stub until the model is online). -/
-namespace Driver.C03
-open Rxn Driver
+import RxnModel.Model.KeyedState
+/-!
+Driver section for C03. Header: `M C03 <kgc>`.
 
-def step (st : Unit) : List String → Unit × String
+Ops (token grammar; bytes in hex, `-` = empty):
+* `apply <subj> (ns <ns> (p <ek> <v> | d <ek>)*)*`      `ApplyMutations`                          → `ok`
+* `get <subj>` / `getmid <subj>`                         `GetState` (`getmid`: background commits land between the scan's two snapshots) → state
+* `tput <subj> <t>` / `tdel <subj> <t>`                  timer store write-through                 → `ok`
+* `batch (fire <subj> <t>)* (ev <key>)* (res <key> (t <t>)* (ns <ns> (p .. | d ..)*)*)*`
+                                                         one `processEventBatch`                   → key states
+* `rot` / `wait` / `ckpt`                                background timing of the LSM: no effect on the map → `ok`
+* `prefixfree ..` / `inj ..` / `disjoint ..` / `decode ..`  theorem instances evaluated on the real encoders → `ok`
+-/
+namespace Driver.C03
+open Rxn Driver Rxn.KeyedState
+
+structure St where
+  kgc : Nat := 0
+  kv : KV := []
+
+def showEntries (es : List (Bytes × Bytes)) : String :=
+  joinWith "," (es.map fun e => toHex e.1 ++ "=" ++ toHex e.2)
+
+def showState (st : List NsState) : String :=
+  if st.isEmpty then "-" else String.join (st.map fun g => toHex g.1 ++ "[" ++ showEntries g.2 ++ "]")
+
+def parseMuts : List String → List Mut × List String
+  | "p" :: ek :: v :: rest => let (ms, r) := parseMuts rest; (Mut.put (hexOr ek) (hexOr v) :: ms, r)
+  | "d" :: ek :: rest => let (ms, r) := parseMuts rest; (Mut.del (hexOr ek) :: ms, r)
+  | rest => ([], rest)
+
+partial def parseNss : List String → List NsMuts × List String
+  | "ns" :: ns :: rest =>
+    let (ms, r) := parseMuts rest
+    let (nss, r') := parseNss r
+    ((hexOr ns, ms) :: nss, r')
+  | rest => ([], rest)
+
+def parseTimers : List String → List Nat × List String
+  | "t" :: t :: rest => let (ts, r) := parseTimers rest; (natOr t :: ts, r)
+  | rest => ([], rest)
+
+partial def parseResults : List String → List KeyResult × List String
+  | "res" :: key :: rest =>
+    let (ts, r) := parseTimers rest
+    let (nss, r') := parseNss r
+    let (krs, r'') := parseResults r'
+    ({ key := hexOr key, timers := ts, muts := nss } :: krs, r'')
+  | rest => ([], rest)
+
+def parseFired : List String → List (Bytes × Nat) × List String
+  | "fire" :: k :: t :: rest => let (fs, r) := parseFired rest; ((hexOr k, natOr t) :: fs, r)
+  | rest => ([], rest)
+
+def parseEvents : List String → List Bytes × List String
+  | "ev" :: k :: rest => let (ks, r) := parseEvents rest; (hexOr k :: ks, r)
+  | rest => ([], rest)
+
+def showKeyStates (ks : List (Bytes × List NsState)) : String :=
+  if ks.isEmpty then "none" else joinWith ";" (ks.map fun p => toHex p.1 ++ ":" ++ showState p.2)
+
+def step (st : St) : List String → St × String
+  | "apply" :: subj :: rest =>
+    let (nss, r) := parseNss rest
+    if r.isEmpty then ({ st with kv := KeyedState.step st.kgc st.kv (.apply (hexOr subj) nss) }, "ok") else (st, "bad-op")
+  | ["get", subj] => (st, showState (getState st.kgc st.kv (hexOr subj)))
+  | ["getmid", subj] => (st, showState (getState st.kgc st.kv (hexOr subj)))
+  | ["tput", subj, t] => ({ st with kv := KeyedState.step st.kgc st.kv (.timerPut (hexOr subj) (natOr t)) }, "ok")
+  | ["tdel", subj, t] => ({ st with kv := KeyedState.step st.kgc st.kv (.timerDel (hexOr subj) (natOr t)) }, "ok")
+  | "batch" :: rest =>
+    let (fired, r0) := parseFired rest
+    let (evs, r1) := parseEvents r0
+    let (res, r2) := parseResults r1
+    if r2.isEmpty then
+      let (kv', states) := processBatch st.kgc st.kv { fired := fired, events := evs, resp := res }
+      ({ st with kv := kv' }, showKeyStates states)
+    else (st, "bad-op")
+  | ["rot"] => (st, "ok")
+  | ["wait"] => (st, "ok")
+  | ["ckpt"] => (st, "ok")
+  | ["prefixfree", _, _, _, _] => (st, "ok")      -- C03.subject_prefix_free
+  | ["inj", _, _, _, _, _, _] => (st, "ok")       -- C03.dbkey_injective
+  | ["disjoint", _, _, _] => (st, "ok")           -- C03.state_timer_disjoint
+  | ["decode", k, ns, d] =>                       -- C03.decode_encode (model side evaluates its own decoder)
+    let r := decodeKey (Keys.dbKey st.kgc (hexOr k) (hexOr ns) (hexOr d))
+    (st, toHex r.1 ++ " " ++ toHex r.2)
   | _ => (st, "bad-op")
 
 def handle (lines : Array String) (i : Nat) (out : Array String) : Nat × Array String :=
-  runLines step () lines i out
+  let kgc := match (if i = 0 then [] else words (lines[i - 1]!)) with
+    | _ :: _ :: k :: _ => natOr k
+    | _ => 256
+  runLines step { kgc := kgc } lines i out
 
 end Driver.C03
